@@ -31,13 +31,13 @@ RULE = ('schema graphs generated from a description: 1-4 classes in a chosen reg
         'orders. A malformed stream destroys ids that do not exist. Non-trivial = something other than the victim row '
         'changes or the call raises; distinct = distinct (graph, population, victim, cache, hold).')
 EXPLANATION = ('Coq theorems over all schema graphs, populations, victims, cache modes and fuels: C12_refines_partial (destroy = '
-               'destroy_spec outside the trigger classes: no reachable cascade cycle, per-class restrict test not triggered by a '
-               'non-restricting column, nothing restricts or the restriction is met first); without guards other than acyclicity: '
+               'destroy_spec outside the open trigger classes: no reachable cascade cycle, and nothing restricts or the restriction '
+               'is met first); without guards other than acyclicity: '
                'C12_terminates, C12_done_is_spec (a normal return has deleted exactly the closure, nulled exactly the \'null\' '
                'references into it, cleaned the link rows on both sides, and left the rest), C12_refusal_noticed, '
-               'C12_done_restrictors_in_closure, C12_raise_only_if_fires, C12_gone, C12_effect, C12_untouched, '
-               'C12_other_columns_kept; C12_acyclicb_iff/C12_closure_* give the guards their meaning; six *_refuted witnesses for the '
-               'five deviations of the code. Correspondence: Model/Cascade.v `destroy` evaluated by vm_compute must reproduce the '
+               'C12_done_restrictors_in_closure, C12_raise_only_if_restricted, C12_gone (cached and uncached alike), C12_effect, C12_untouched, '
+               'C12_other_columns_kept; C12_acyclicb_iff/C12_closure_* give the guards their meaning; *_refuted witnesses for the '
+               'three deviations still open (partial effects before a refusal, cascade cycles, order dependence). Correspondence: Model/Cascade.v `destroy` evaluated by vm_compute must reproduce the '
                'outcome, every class table and link table and every get(id) the real SQLObject produced on sqlite (including the '
                'partial effects of refused calls), and `destroy_spec` must equal the specification the plugin computes '
                'independently; the oracle judges the implementation against that specification.')
@@ -48,7 +48,7 @@ TRUSTED_BASE = [
     'SELECT without ORDER BY returns rows in rowid order (observed on sqlite; the order of the recursive destroySelf calls depends on it)',
     'RowDestroySignal/RowDestroyedSignal listeners, inheritance (InheritableSQLObject.destroySelf), Transaction connections and lazyUpdate are outside the model',
     'row-level cascade cycles: the model runs out of fuel for every fuel; the real interpreter stops with RecursionError at a depth the model does not predict, so no state is compared for those cases',
-    'the identity map is modelled only as "the instances somebody still holds": hits are returned without a query; cache=False keeps weak entries, expire() does not drop them',
+    'the identity map is modelled only as "the instances somebody still holds": hits are returned without a query; destroySelf purges the entry in either cache mode',
     'the correspondence harness tools/props/c12.py (dynamic class creation, raw-cursor population and dumps) and the cases.v evaluation',
 ]
 
@@ -132,20 +132,6 @@ def cascade_cycle_reachable(c):
         done.add(n)
         return False
     return dfs(tuple(c['victim']))
-
-
-def mixed_trigger(c, D):
-    """some row of D is referenced, through a cascade=True/'null' column, by a row of a class that
-    also has a cascade=False column to the same target"""
-    classes, rows = c['classes'], c['rows']
-    for d in D:
-        for k, cd in enumerate(classes):
-            if not any(t == d[0] and p == 'R' for t, p in cd['fks']):
-                continue
-            for r in rows[k]:
-                if any(t == d[0] and p in 'CN' and v == d[1] for (t, p), v in zip(cd['fks'], r[1])):
-                    return True
-    return False
 
 
 # ---------------------------------------------------------------- generation
@@ -315,7 +301,7 @@ def witnesses():
         # finding: link rows removed before the restriction raises
         mk([{'fks': [], 'joins': [[1, 0, False]]}, {'fks': [[0, 'R']], 'joins': [[0, 0, True]]}],
            [[[1, []], [2, []]], [[1, [1]], [2, [None]]]], [[[1, 1], [1, 2], [2, 2]]], (0, 1), True, 'victim'),
-        # finding: restrict test is per dependent class
+        # fixed 6f7f267: restrict test was per dependent class
         mk([E, {'fks': [[0, 'C'], [0, 'R']], 'joins': []}],
            [[[1, []], [2, []]], [[1, [1, None]], [2, [None, 2]]]], [], (0, 1), True, 'all'),
         # finding: row-level cascade cycles
@@ -326,7 +312,7 @@ def witnesses():
            [[[1, []]], [[1, [1, 1]]], [[1, [1]]]], [], (0, 1), True, 'all'),
         mk([E, {'fks': [[0, 'C']], 'joins': []}, {'fks': [[0, 'C'], [1, 'R']], 'joins': []}],
            [[[1, []]], [[1, [1]]], [[1, [1, 1]]]], [], (0, 1), True, 'all'),
-        # finding: cache=False hands the destroyed instance out again
+        # fixed e3b93b4: cache=False handed the destroyed instance out again
         mk([E, {'fks': [[0, 'C']], 'joins': []}], [[[1, []]], [[1, [1]]]], [], (0, 1), False, 'all'),
         # depth-2 cascade with null-outs, dangling references and links (no deviation)
         mk([{'fks': [], 'joins': [[2, 0, False]]}, {'fks': [[0, 'C'], [0, 'N']], 'joins': []},
@@ -695,7 +681,8 @@ def simulate(c):
 
             def matching():
                 return [r for r in tabs[k] if any(r[1][j] is not None and r[1][j] == x for j in cols)]
-            if any(cd['fks'][j][1] == 'R' for j in cols) and matching():
+            rcols = [j for j in cols if cd['fks'][j][1] == 'R']
+            if rcols and [r for r in tabs[k] if any(r[1][j] is not None and r[1][j] == x for j in rcols)]:
                 raise _Refused()
             if any(cd['fks'][j][1] == 'N' for j in cols):
                 for r in matching():
@@ -713,11 +700,10 @@ def simulate(c):
         out = 'SQLObjectIntegrityError'
     except RecursionError:
         return {'out': 'RecursionError'}
-    held = set(held_nodes(c))
     gets = []
     for k, rs in enumerate(c['rows']):
         present = {r[0] for r in tabs[k]}
-        gets.append([(r[0] in present) or (not c['cache'] and (k, r[0]) in held) for r in rs])
+        gets.append([r[0] in present for r in rs])     # cache.purge: gone in either cache mode
     return {'out': out, 'tabs': tabs, 'links': links, 'found': gets}
 
 
@@ -741,14 +727,10 @@ def explain_deviations(c, o, f):
     D = {tuple(d) for d in sp['D']}
     dev = list(f['deviations'])
     ids = []
-    held = set(held_nodes(c))
-    if 'stale_get' in dev:
-        # only on cache=False connections, only instances somebody still holds
-        if c['cache'] or not all((k, i) in held and got == 'held' for k, i, got in f['detail'].get('stale', [])):
-            return None
-        ids.append(F_STALE)
-        dev.remove('stale_get')
-    if 'ghost_get' in dev or 'other_exception' in dev or 'missing_id' in dev:
+    # fixed findings (restrict_test_per_dependent_class 6f7f267, uncached_connection_hands_out_destroyed_instance
+    # e3b93b4) are no longer known: their deviations are violations again
+    if ('stale_get' in dev or 'refused_without_restriction' in dev or 'changed_although_raised' in dev or
+            'ghost_get' in dev or 'other_exception' in dev or 'missing_id' in dev):
         return None
     if 'recursion' in dev:
         if not cascade_cycle_reachable(c):
@@ -756,16 +738,6 @@ def explain_deviations(c, o, f):
         ids.insert(0, F_CYCLE)
         dev.remove('recursion')
         return ids if not dev else None
-    if 'refused_without_restriction' in dev:
-        if not mixed_trigger(c, D):
-            return None
-        ids.insert(0, F_PERCLASS)
-        dev.remove('refused_without_restriction')
-        if 'changed_although_raised' in dev:
-            if not within_spec_effects(c, sp, o):
-                return None
-            ids.append(F_PARTIAL)
-            dev.remove('changed_although_raised')
     if 'changed_although_refused' in dev:
         if not within_spec_effects(c, sp, o):
             return None
